@@ -59,8 +59,24 @@ NEEDS = {
  "C16-d": "a range/arange form whose last intended radius lies within 1e-5 (relative) of stop (dropped by np.isclose)",
  "C17-d": "a name with two algorithm tokens one of which contains 'zero' (lazy fields: the duplicate check never runs)",
  "C19-d": "n_b >= 2 and the forwarded position adjacency (or Cartesian borders/distances) asked before the first get_full_adjacency on one object",
+ "C01-e": "cell volumes handed over as an integer-dtype array with values > 1 (np.reciprocal on integers is integer division)",
+ "C02-e": "a rotation block at least half full (4 <= n_b <= 19 for cube4D): scipy.sparse.kron takes its BSR shortcut and the block's zeros become stored entries",
+ "C04-e": "a sparse irregular 4-D grid (randomQ N = 7..24) in which two cells share a face while their centres are more than a quarter turn apart and the complementary sign pair shares none",
+ "C05-e": "a direction grid with exactly four points (ico_4, cube3D_4, randomS_4)",
+ "C07-e": "algorithm fulldiv with N >= 40: points with q0 = 0 and mixed-sign later coordinates",
+ "C09-e": "a single-direction grid (n_o = 1, integer array [[0,0,1]]) and a radius that is not a whole number of Angstroms",
+ "C10-e": "two molecules with different atom counts",
+ "C11-e": "a first molecule whose atom count differs from the second's",
+ "C12-e": "tau >= 2 and an unassigned (NaN) frame strictly between two assigned frames exactly tau apart",
+ "C13-e": "at least three overlapping join sublists given in a bridging order ([[0,1],[2,3],[1,2]]), index_list=None",
+ "C14-e": "T below 300.7 K and a neighbouring pair whose energies differ by more than 0.2*R*T kJ/mol but less than the 500 kJ/mol cap",
+ "C16-e": "a linspace(...) / range(...) / arange(...) form followed by whitespace (trailing blank, tab or newline)",
+ "C17-e": "a name with two ADJACENT number tokens (ico_12_17)",
+ "C19-e": "default position mode, at least two radii and a small direction grid (n_o = 2..7): kron returns a BSR matrix without .row/.col",
+ "C20-e": "an xvg file with exactly one data line (squeeze() collapses the single-row column to a 0-d array)",
 }
 NOT_CAUGHT = {
+ "C07-e": "no VIOLATION line: the defect is in a concrete generator (outside what C07 claims, DESIGN section 6); the check re-validates the generators' contract on small real grids on every run and ends with a harness error (exit 2) that names the broken contract",
  "C12-d": "not caught, and not catchable inside the bound: the defect is a 32-bit wrap that needs more than 46 340 cells (the check covers n <= 4 and models Python/NumPy integers as mathematical integers); the restructured counting (np.unique(return_counts) / divmod / coo_array on symbolic cell indices) is also beyond what the array model encodes, so the check ends with a harness error (exit 2), never with a pass",
  "C14-d": "not caught: the spectral sentence is covered for the sorting glue only, with ARPACK as a contract stub for the plain call; what ARPACK returns when it is handed a stale shift-invert operator is ARPACK's semantics (outside, DESIGN section 6). With sigma=None -- the only setting the glue harness uses -- the changed code behaves exactly as before, so the check passes",
 }
@@ -77,7 +93,7 @@ for d in sorted(glob.glob(os.path.join(ROOT, "seeded", "C*-*"))):
         runs[p] = {"exit": 1 if "VIOLATION property=" in t else (2 if "HARNESS-ERROR" in t else 0), "violation_lines": sum(1 for l in t.splitlines() if l.startswith("VIOLATION")),
                    "summary": next((l for l in t.splitlines() if l.startswith("[")), "")}
     meta = {"seed": sid, "breaks_property": prop,
-            "origin": "fresh sub-agent given only the property text and a scratch worktree of /repo" + {"a": " (round 1)", "b": " (round 2: told which idea was already taken)", "c": " (round 3: told the two ideas already taken; asked for multi-step sequences, cooperating sites, state, aliasing)", "d": " (round 4: told the three ideas already taken; asked for a clearly different mechanism and site)"}[sid[-1]],
+            "origin": "fresh sub-agent given only the property text and a scratch worktree of /repo" + {"a": " (round 1)", "b": " (round 2: told which idea was already taken)", "c": " (round 3: told the two ideas already taken; asked for multi-step sequences, cooperating sites, state, aliasing)", "d": " (round 4: told the three ideas already taken; asked for a clearly different mechanism and site)", "e": " (round 5: told the ideas already taken; asked for boundary/tie/ordering mistakes, simplifications valid only for uniform inputs, numpy/scipy API subtleties)"}[sid[-1]],
             "needs_to_manifest": NEEDS.get(sid, ""),
             "confirmed_in_scratch_worktree": {"command": f"tools/seedconfirm.sh seeded/{sid}", "result": summ,
                                               "meaning": "demo.py exits 0 on /repo HEAD and 1 with patch.diff applied; full existing suite with the patch: only the 4 known missing-input failures of tests/test_pt.py"},
